@@ -16,7 +16,7 @@ TEXT = {
  "C06": "clip_restricts_exactly (bisect/iloc model proved against the window predicate on both limits), mask_where_pointwise, where_tuple_is_clip, mask_tuple_masks_the_interval, isna_notna_indicators.",
  "C07": "fillna_scalar_pointwise, fillna_function_pointwise (the repaired fillna(0) + g.fillna(0)*isna pipeline), ffill_fills_from_the_left, bfill_fills_from_the_right (defined points unchanged; undefined points take the last / next defined value).",
  "C08": "listed_pieces_are_pieces_of_the_function (the finite pieces denote f, unbounded pieces excluded), value_sums_maps_each_value_to_its_total_length, integral_and_mean_are_length_weighted, var_is_the_weighted_mean_squared_deviation (proved through the pipeline the code uses: value sums -> ecdf -> percentile table -> squared deviation -> clip to [0, 100] -> integral / 100, for every well-formed function with a finite defined piece). std = numpy.sqrt(var) is irrational-valued and outside the rational model: tied to var by the correspondence check only (std^2 vs var, 1e-9). Timedelta-valued results on datetime domains: correspondence (domain flavours).",
- "C09": "ecdf_is_the_fraction_of_length_at_or_below (left limit: strictly below), hist_probability_and_sum + bin_difference_is_the_length_of_values_in_the_bin, mode_is_a_value_of_maximal_total_length, percentile_is_the_midpoint_of_the_lower_and_upper_quantiles (minimum at 0, maximum at 100), quantiles_are_least_values_reaching_the_share + the_cumulative_share_is_the_ecdf, fractile_is_percentile_of_100p, median_is_percentile_50 - all for every well-formed function with a finite defined piece, through the pipeline the code uses (value sums -> ecdf -> quantile table -> one-sided limits). hist 'frequency' / 'density' (quotients of the proved sums), quantiles(q) (fractiles at i/q) and describe (a table of these statistics) are Python glue over the proved functions: correspondence + oracle (exact on power-of-two totals, 1e-9 otherwise). hist_frequency_is_sum_over_width, hist_density_is_sum_over_area, densities_integrate_to_one, describe_is_the_statistics_of_the_restriction (unfoldings that tie 'frequency', 'density' and describe to the proved quantities).",
+ "C09": "ecdf_is_the_fraction_of_length_at_or_below (left limit: strictly below), hist_probability_and_sum + bin_difference_is_the_length_of_values_in_the_bin, mode_is_a_value_of_maximal_total_length, percentile_is_the_midpoint_of_the_lower_and_upper_quantiles (minimum at 0, maximum at 100), quantiles_are_least_values_reaching_the_share + the_cumulative_share_is_the_ecdf, fractile_is_percentile_of_100p, median_is_percentile_50 - all for every well-formed function with a finite defined piece, through the pipeline the code uses (value sums -> ecdf -> quantile table -> one-sided limits). hist 'frequency' / 'density' (quotients of the proved sums), quantiles(q) (fractiles at i/q) and describe (a table of these statistics) are Python glue over the proved functions: correspondence + oracle (exact on power-of-two totals, 1e-9 otherwise). hist_frequency_is_sum_over_width, hist_density_is_sum_over_area, densities_integrate_to_one, describe_is_the_statistics_of_the_restriction (unfoldings that tie 'frequency', 'density' and describe to the proved quantities), describe_unique_is_the_number_of_distinct_values.",
  "C10": "values_in_range_is_exactly_the_value_set (iff, for all 8 rows of the bisect-side table, bounded / half-bounded / unbounded windows, using density of the rational domain), sorted without duplicates, min / max are the least / greatest element. Windows need lower < upper (the code rejects others in clip/agg). Correspondence puts window end points on every step point for every row.",
  "C11": "a_slice_is_the_restriction, slicer statistics = statistics of the slice (the slicer maps over the intervals), slicer max / min = greatest / least value f takes at a defined point of the interval with the interval's own closedness (via C10 and one-sided limits), resample_is_piecewise_the_statistic (increasing non-overlapping slices; a slice whose statistic is undefined stays undefined). What mean / integral / median / mode of a slice are is C08 / C09; hist over slices, agg([...]) and apply are Python glue covered by the slicecall flavours.",
  "C12": "every_operation_returns_a_minimal_result, minimal_form_is_canonical, identical_decides_equality (iff), bool_is_true_exactly_for_the_constant_one, algebraic_identities_up_to_identical (7 identities). Minimality of scalar-path layering results is covered by the correspondence (raw step tables compared) rather than by a theorem. from_values refuses an index that is not strictly increasing (model, oracle and programs); integer labels beyond 2**53 (`bigint` domain flavour) are exercised for identical().",
